@@ -127,3 +127,17 @@ Example C06_pre_fix_failed_bulk_breaks_bound :
   let s := run true (init [] 0) tr in
   (length (pending s) > 50)%nat /\ n_unc s = 0 /\ recover s = [].
 Proof. exact pre_fix_failed_bulk_breaks_bound. Qed.
+
+(* Since a00ceb1 the id-carrying events of an insert_many are counted by the same
+   conditional_commit as its new rows (one commit decision per call).  Inside a call with 30
+   id-carrying and 25 new events on top of 50 pending writes, after its last statement, 105
+   writes are pending and none of the call's is counted yet (the in-flight bound 50 + its own
+   writes of C06_bounded_loss_in_flight is reached); when the call returns nothing is pending. *)
+Example C06_bulk_with_upserts_in_flight :
+  let ins n := map (fun i => InsertOne (Z.of_nat i)) (seq 0%nat n) in
+  let o := InsertMany (map Z.of_nat (seq 100%nat 30%nat)) (map Z.of_nat (seq 200%nat 25%nat)) in
+  let tr := timed0 (expand_all (ins 50%nat ++ [o])) in
+  let mid := run true (init [] 0) (firstn 131%nat tr) in
+  (length tr, length (pending mid), n_unc mid, length (writes_of (expand o))) = (132%nat, 105%nat, 50, 55%nat) /\
+  pending (run true (init [] 0) tr) = [] /\ length (recover (run true (init [] 0) tr)) = 105%nat.
+Proof. vm_compute. repeat split; reflexivity. Qed.
